@@ -7,6 +7,17 @@ HERE = os.path.dirname(os.path.abspath(__file__))
 
 # property -> (technique, level text, level note, design ref)
 CLAIMED = {
+    'C06': ('byte / character unit inference (qualifier analysis over every column expression: sources by attribute, conversion call and '
+            'naming convention; sinks: col_offset stores and keywords, c2b/b2c arguments, string indices, regex / startswith positions, '
+            'fstloc columns, unit-named parameters of resolved callees); line/column pairing of guarded position stores; registry '
+            'coverage of computed locations',
+            'Static: decides over ~2000 unit-carrying constructs in the whole package that byte offsets and character columns are never '
+            'mixed, stored into each other\'s slots or passed to each other\'s parameters, that a column adjustment is guarded by the '
+            'line attribute of the same end of the node, and that every position-less AST class has a computed-location function. '
+            'Correctness of the text scans behind loc / pars / find_* depends on the text and is not decided.',
+            'Trusts the repository naming conventions for units and the two reviewed exceptions (a deliberate byte-minus-char delta, an '
+            'end-of-line upper bound).',
+            'DESIGN.md §2 C06'),
     'C05': ('mode-registry agreement (Mode literals / parse table / code_as table / leaf classes); wrapper-template analysis: each '
             'f-string template is parsed by the stdlib parser with a placeholder and with a library of generic escape / continuation '
             'probes, yielding which fields of the wrapper node text at {src} can populate or alter; read-set comparison per parser; '
@@ -138,7 +149,7 @@ NOT_APPLICABLE = {
            'conservation is value-level. Its two structural clauses are checked as R5.1 and R7.3.',
 }
 
-PLANNED = ['C01', 'C02', 'C04', 'C06', 'C11']
+PLANNED = ['C01', 'C02', 'C04', 'C11']
 
 
 def main():
